@@ -28,10 +28,13 @@ type behav struct {
 	force     string // "", "fast", "block": run that synchroniser directly instead of Executer.process
 	restart   bool   // C04SYNC: the requester node is restarted (new Chain / Executer over the same database) right before the synchronisation
 	syncing   bool   // C04SYNC: forced synchroniser: the Executer's syncying flag is set, as Executer.process does around syncer.Sync
+	target    int    // >= 0: the block the peer announced (received block, answer to getLastBlock) is the one of
+	// that height although the peer's chain is longer: the peer kept growing after the announcement
+	sweep bool // not an op option: the responder serves a geometry sweep (hundreds of requests within seconds)
 }
 
 func parseBehav(w []string) behav {
-	b := behav{stop: -1, badStatic: -1, badExec: -1}
+	b := behav{stop: -1, badStatic: -1, badExec: -1, target: -1}
 	if v, ok := kvInt(w, "cap"); ok {
 		b.cap = v
 	}
@@ -46,6 +49,9 @@ func parseBehav(w []string) behav {
 	}
 	b.common, _ = kvStr(w, "common")
 	b.force, _ = kvStr(w, "force")
+	if v, ok := kvInt(w, "target"); ok {
+		b.target = v
+	}
 	// C04SYNC: options of the pseudo-property C04SYNC (c04sync.go)
 	if v, ok := kvInt(w, "restart"); ok && v == 1 {
 		b.restart = true
@@ -116,8 +122,15 @@ func newResponder(c *chains, b behav, served []*blockchain.Block) (*p2p.Connecti
 	last := syncer.HandleRPCEndpointGetLastBlock()
 	common := syncer.HandleRPCEndpointGetHighestCommonBlock()
 	blocks := syncer.HandleRPCEndpointGetBlocksFromID()
+	if b.target >= 0 && b.target < len(served) {
+		// an honest peer that has grown since: it reports the block it announced, everything else is
+		// answered from its (longer) chain
+		last = func(w p2p.ResponseWriter, r *p2p.Request) { w.Write(served[b.target].Encode()) }
+	}
 	if !b.honest() {
-		last = func(w p2p.ResponseWriter, r *p2p.Request) { w.Write(served[len(served)-1].Encode()) }
+		if b.target < 0 {
+			last = func(w p2p.ResponseWriter, r *p2p.Request) { w.Write(served[len(served)-1].Encode()) }
+		}
 		if b.common == "none" {
 			common = func(w p2p.ResponseWriter, r *p2p.Request) { w.Write(nil) }
 		} else if b.common != "" {
@@ -162,13 +175,19 @@ func newResponder(c *chains, b behav, served []*blockchain.Block) (*p2p.Connecti
 			w.Write((&lsync.GetBlocksFromIDResponse{Blocks: res}).Encode())
 		}
 	}
-	if err := conn.RegisterRPCHandler(lsync.RPCEndpointGetLastBlock, last); err != nil {
+	var opts []p2p.RPCHandlerOption
+	if b.sweep {
+		// pkg/p2p penalises a peer that sends more than 100 requests of one kind within 10 s (and bans it
+		// after ten penalties); the responder of a sweep is configured not to count
+		opts = append(opts, p2p.WithRPCMessageCounter(1<<30, 0))
+	}
+	if err := conn.RegisterRPCHandler(lsync.RPCEndpointGetLastBlock, last, opts...); err != nil {
 		return nil, err
 	}
-	if err := conn.RegisterRPCHandler(lsync.RPCEndpointGetHighestCommonBlock, common); err != nil {
+	if err := conn.RegisterRPCHandler(lsync.RPCEndpointGetHighestCommonBlock, common, opts...); err != nil {
 		return nil, err
 	}
-	if err := conn.RegisterRPCHandler(lsync.RPCEndpointGetBlocksFromID, blocks); err != nil {
+	if err := conn.RegisterRPCHandler(lsync.RPCEndpointGetBlocksFromID, blocks, opts...); err != nil {
 		return nil, err
 	}
 	if err := conn.Start([]byte{}); err != nil {
@@ -234,6 +253,17 @@ func runSyncOnce(c *chains, w []string) (out string, fails []corr.Fail) {
 		}
 	}
 	target := served[len(served)-1]
+	if b.target >= 0 {
+		if b.target == 0 || b.target >= len(served) {
+			return "bad-op", nil
+		}
+		target = served[b.target]
+		// the sync line carries the prevoted height of the announced block (the model needs it)
+		if v, ok := kvInt(w, "tmhp"); !ok || uint32(v) != target.Header.MaxHeightPrevoted {
+			return fmt.Sprintf("param-mismatch tmhp=%d", target.Header.MaxHeightPrevoted), nil
+		}
+	}
+	targetH := int(target.Header.Height)
 	if b.badExec >= 0 {
 		// the reset/sync lines carry the finalized height of the applicable part of the served chain
 		if v, ok := kvInt(w, "finpeak"); !ok || b.badExec-1 >= len(c.finP) || uint32(v) != c.finP[b.badExec-1] {
@@ -241,78 +271,12 @@ func runSyncOnce(c *chains, w []string) (out string, fails []corr.Fail) {
 		}
 	}
 
-	q, err := c.newRequester()
-	if err != nil {
-		return "setup-failed", []corr.Fail{fail("c19-setup", "requester: %v", err)}
+	pr, out, fails := startPair(c, b, served)
+	if pr == nil {
+		return out, fails
 	}
-	if b.restart {
-		// C04SYNC: the usual situation of a node that synchronises: it was just started and has applied nothing yet
-		if err := q.Restart(); err != nil {
-			q.Close()
-			return "setup-failed", []corr.Fail{fail("c19-setup", "requester restart: %v", err)}
-		}
-	}
-	resp, err := newResponder(c, b, served)
-	if err != nil {
-		q.Close()
-		return "setup-failed", []corr.Fail{fail("c19-setup", "responder: %v", err)}
-	}
-	q.Conn.VerifC19SetListen([]string{"/ip4/127.0.0.1/tcp/0"})
-	if err := q.Conn.Start([]byte{}); err != nil {
-		_ = resp.Stop()
-		q.Close()
-		return "setup-failed", []corr.Fail{fail("c19-setup", "requester connection: %v", err)}
-	}
-	hung := false
-	defer func() {
-		if hung {
-			return
-		}
-		// Stopping a libp2p host waits for its stream handlers; a handler of the request/response
-		// layer can block forever (C17: onResponse sends on an unbuffered channel under resMu), so the
-		// clean-up is abandoned after a while instead of blocking the run.
-		fin := make(chan struct{})
-		go func() {
-			defer close(fin)
-			_ = q.Conn.Stop()
-			_ = resp.Stop()
-			q.Close()
-		}()
-		select {
-		case <-fin:
-		case <-time.After(15 * time.Second):
-		}
-	}()
-	addrs, err := resp.MultiAddress()
-	if err != nil || len(addrs) == 0 {
-		return "setup-failed", []corr.Fail{fail("c19-setup", "responder address: %v", err)}
-	}
-	info, err := p2p.AddrInfoFromMultiAddr(addrs[0])
-	if err != nil {
-		return "setup-failed", []corr.Fail{fail("c19-setup", "responder address: %v", err)}
-	}
-	if err := q.Conn.Connect(context.Background(), *info); err != nil {
-		return "setup-failed", []corr.Fail{fail("c19-setup", "connect: %v", err)}
-	}
-	// wait until both sides see the connection and a request gets through (connection set-up is not
-	// part of the property)
-	ready := false
-	for deadline := time.Now().Add(20 * time.Second); !ready && time.Now().Before(deadline); {
-		for _, pid := range resp.ConnectedPeers() {
-			if pid == q.Conn.ID() {
-				ctx, cancel := context.WithTimeout(context.Background(), time.Second)
-				_, err := lsync.VerifC19RequestLastBlockHeader(ctx, q.Conn, resp.ID())
-				cancel()
-				ready = err == nil
-			}
-		}
-		if !ready {
-			time.Sleep(5 * time.Millisecond)
-		}
-	}
-	if !ready {
-		return "setup-failed", []corr.Fail{fail("c19-setup", "the two hosts did not get connected")}
-	}
+	defer pr.stop()
+	q, resp := pr.q, pr.resp
 	q.AllowSync = true
 	q.PeerID = resp.ID()
 
@@ -400,7 +364,7 @@ func runSyncOnce(c *chains, w []string) (out string, fails []corr.Fail) {
 	select {
 	case syncErr = <-done:
 	case <-time.After(syncWatchdog):
-		hung = true
+		pr.hung = true
 		return "timeout", []corr.Fail{fail("c19-sync-hang", "synchronisation (%s, peer %s) did not return within %s", mode, b.kind(), syncWatchdog)}
 	}
 	var pe *node.PanicError
@@ -450,8 +414,9 @@ func runSyncOnce(c *chains, w []string) (out string, fails []corr.Fail) {
 			break
 		}
 	}
+	// the honest peer's chain up to the block it announced
 	pIDs := [][]byte{}
-	for _, blk := range c.pBlocks {
+	for _, blk := range c.pBlocks[:min(targetH+1, len(c.pBlocks))] {
 		pIDs = append(pIDs, blk.Header.ID)
 	}
 	n := c.prm.N
@@ -459,13 +424,18 @@ func runSyncOnce(c *chains, w []string) (out string, fails []corr.Fail) {
 	case b.honest() || (b.kind() == "smallsegments"):
 		// honest peer with a better valid chain: the requester must end on it when the fork point is
 		// not below its finalized height (and, for fast sync, inside the two-round window)
+		// (for block sync: and one of the at most 3 x 9 sampled heights of the common block search, or its
+		// last resort the finalized block, is in the common part - refCommonHeight)
 		reach := c.prm.F >= int(finBefore)
 		if mode == "fast" {
-			reach = reach && c.prm.Q-c.prm.F <= 2*n-2 && c.prm.P-c.prm.F <= 2*n
+			reach = reach && c.prm.Q-c.prm.F <= 2*n-2 && targetH-c.prm.F <= 2*n
+		} else {
+			reach = reach && refCommonHeight(c.prm.Q, int(finBefore), n, c.prm.F) >= 0
 		}
 		if mode != "none" && reach {
 			if !same(after, pIDs) || syncErr != nil {
-				fails = append(fails, fail("c19-no-convergence", "honest peer, fork height %d >= finalized %d: requester ended at height %d (tip %s) err=%v", c.prm.F, finBefore, tip.Height, c.token(tip.ID, extraTok), syncErr))
+				fails = append(fails, fail("c19-not-converged", "honest peer (tip %d) announced its block %d, fork height %d >= finalized %d, own tip %d, round length %d: %s sync ended at height %d (tip %s) err=%v instead of on the peer's chain up to the announced block",
+					c.prm.P, targetH, c.prm.F, finBefore, c.prm.Q, n, mode, tip.Height, c.token(tip.ID, extraTok), syncErr))
 			}
 			if banned {
 				fails = append(fails, fail("c19-honest-peer-banned", "the honest peer was banned"))
@@ -496,7 +466,7 @@ func runSyncOnce(c *chains, w []string) (out string, fails []corr.Fail) {
 		}
 		// (a received block that is itself malformed is rejected by Syncer.Sync before any request is made)
 		announcedBad := b.badStatic == len(c.pBlocks)-1 && b.force == ""
-		reached := c.prm.F >= int(finBefore) && c.prm.Q-c.prm.F <= 2*n-2 && c.prm.P-c.prm.F <= 2*n
+		reached := c.prm.F >= int(finBefore) && c.prm.Q-c.prm.F <= 2*n-2 && targetH-c.prm.F <= 2*n
 		if (b.kind() == "badstatic" || b.kind() == "badexec") && syncErr != nil && !banned && int(q.Finalized()) <= c.prm.F && !announcedBad && reached {
 			fails = append(fails, fail("c19-bad-peer-not-banned", "peer serving an invalid block (%s) was not banned", b.kind()))
 		}
